@@ -1,31 +1,31 @@
 (** C10: the tie between the future model and lib/concurrent/concurrent.go. *)
-From Lisp Require Import Base Lockset LocksetProofs ConcFuture PinsCommon Gen.ConcActions.
+From Lisp Require Import Base Lockset LocksetProofs ConcFuture Paths PinsCommon Gen.ConcActions.
 Local Open Scope nat_scope.
 
-(** ---- futures: ConcFuture.body_step / caller_step follow these lists ---- *)
-Definition expected_future_go := toks ["Apply"; "Lock"; "Write:Done"; "Unlock"; "If("; "Send:f.ErrChan"; "Return"; ")"; "Send:f.ValChan"]%string.
-Definition expected_future_deref :=
-  toks ["Select("; "Case("; "Recv:ctx.Done()"; "Return"; ")";
-        "Case("; "Recv:f.ErrChan"; "Send:f.ErrChan"; "Return"; ")";
-        "Case("; "Recv:f.ValChan"; "Send:f.ValChan"; "Return"; ")"; ")"]%string.
-Definition expected_future_cancel :=
-  toks ["Lock"; "DeferUnlock"; "Read:Done"; "If("; "Write:Cancelled"; "Write:Done"; "CallCancel"; ")"; "Read:Cancelled"; "Return"]%string.
-Definition expected_is_done := toks ["Lock"; "DeferUnlock"; "Read:Done"; "Return"]%string.
-Definition expected_is_cancelled := toks ["Lock"; "DeferUnlock"; "Read:Cancelled"; "Return"]%string.
-Definition expected_new_future := toks ["Go"; "Return"]%string.
+(** ---- futures: ConcFuture.body_step / caller_step follow these path sets (Paths.fn_paths) ---- *)
+Definition future_go_paths : list (list pev) :=
+  [ [tk "Apply"; PLock; wr "Done"; PUnlock; tk "Send:f.ErrChan"]; [tk "Apply"; PLock; wr "Done"; PUnlock; tk "Send:f.ValChan"] ].
+Definition future_deref_paths : list (list pev) :=
+  [ [tk "Recv:ctx.Done()"]; [tk "Recv:f.ErrChan"; tk "Send:f.ErrChan"]; [tk "Recv:f.ValChan"; tk "Send:f.ValChan"] ].
+Definition future_cancel_paths : list (list pev) :=
+  [ [PLock; rd "Done"; wr "Cancelled"; wr "Done"; tk "CallCancel"; rd "Cancelled"; PUnlock];
+    [PLock; rd "Done"; rd "Cancelled"; PUnlock] ].
+Definition is_done_paths : list (list pev) := [ [PLock; rd "Done"; PUnlock] ].
+Definition is_cancelled_paths : list (list pev) := [ [PLock; rd "Cancelled"; PUnlock] ].
+Definition new_future_paths : list (list pev) := [ [tk "Go"] ].
 
-Lemma future_go_actions : conc_NewFuture_go = expected_future_go. Proof. reflexivity. Qed.
-Lemma future_deref_actions : conc_Future_Deref = expected_future_deref. Proof. reflexivity. Qed.
-Lemma future_cancel_actions : conc_Future_Cancel = expected_future_cancel. Proof. reflexivity. Qed.
-Lemma is_done_actions : conc_Future_IsDone = expected_is_done. Proof. reflexivity. Qed.
-Lemma is_cancelled_actions : conc_Future_IsCancelled = expected_is_cancelled. Proof. reflexivity. Qed.
-Lemma new_future_actions : conc_NewFuture = expected_new_future. Proof. reflexivity. Qed.
+Lemma future_go_actions : same_paths (fn_paths conc_NewFuture_go) future_go_paths = true. Proof. vm_compute. reflexivity. Qed.
+Lemma future_deref_actions : same_paths (fn_paths conc_Future_Deref) future_deref_paths = true. Proof. vm_compute. reflexivity. Qed.
+Lemma future_cancel_actions : same_paths (fn_paths conc_Future_Cancel) future_cancel_paths = true. Proof. vm_compute. reflexivity. Qed.
+Lemma is_done_actions : same_paths (fn_paths conc_Future_IsDone) is_done_paths = true. Proof. vm_compute. reflexivity. Qed.
+Lemma is_cancelled_actions : same_paths (fn_paths conc_Future_IsCancelled) is_cancelled_paths = true. Proof. vm_compute. reflexivity. Qed.
+Lemma new_future_actions : same_paths (fn_paths conc_NewFuture) new_future_paths = true. Proof. vm_compute. reflexivity. Qed.
 (** the builtins future-cancelled? / future-done? / future-cancel go through the locked accessors *)
 Lemma status_builtins_actions :
-  conc_Load_lit4 = toks ["Call:own:IsCancelled"; "Return"]%string /\
-  conc_Load_lit5 = toks ["Call:own:IsDone"; "Return"]%string /\
-  conc_future_cancel = toks ["Call:own:Cancel"; "Return"]%string.
-Proof. repeat split; reflexivity. Qed.
+  same_paths (fn_paths conc_Load_lit4) [[own "IsCancelled"]] = true /\
+  same_paths (fn_paths conc_Load_lit5) [[own "IsDone"]] = true /\
+  same_paths (fn_paths conc_future_cancel) [[own "Cancel"]] = true.
+Proof. repeat split; vm_compute; reflexivity. Qed.
 
 Definition flags_shared (f : str) : bool := str_eqb f (s_ "Done") || str_eqb f (s_ "Cancelled").
 
